@@ -791,7 +791,10 @@ class CompartmentalSystem(Statement):
         )
 
     def __hash__(self):
-        return hash((self._t, self._g))
+        # NOTE: Must be consistent with __eq__, i.e. independent of the identity
+        # of the graph object and of the order in which it was built
+        edges = frozenset((u, v, rate) for u, v, rate in self._g.edges.data('rate'))
+        return hash((self._t, frozenset(self._g.nodes), edges))
 
     def to_dict(self) -> dict[str, Any]:
         comps = [comp for comp in self._g.nodes]
